@@ -916,7 +916,10 @@ impl<'de, R: Read<'de>> Parser<R> {
                     }
                     b'.' => {
                         self.eat_char();
-                        let next = self.peek_or_null()?;
+                        let next = match self.peek()? {
+                            Some(next) => next,
+                            None => return Err(self.peek_error(ErrorCode::EofWhileParsingList)),
+                        };
                         if next == 0 || is_delimiter(next) {
                             if !have_value {
                                 return Err(self.peek_error(ErrorCode::ExpectedSomeValue));
@@ -976,7 +979,10 @@ impl<'de, R: Read<'de>> Parser<R> {
                     b'.' => {
                         let start = self.read.position();
                         self.eat_char();
-                        let next = self.peek_or_null()?;
+                        let next = match self.peek()? {
+                            Some(next) => next,
+                            None => return Err(self.peek_error(ErrorCode::EofWhileParsingList)),
+                        };
                         if next == 0 || is_delimiter(next) {
                             if !have_value {
                                 return Err(self.peek_error(ErrorCode::ExpectedSomeValue));
